@@ -26,6 +26,7 @@
   scico/functional/_functional.py
     ZeroFunctional.prox               → `zeroProx`
   scico/loss.py
+    Loss.prox (generic, A Identity)   → `lossTranslateProx` ; Loss.__mul__/__truediv__/set_scale → `scaleAfter`
     SquaredL2Loss.prox (A Diagonal/Identity) → `sqL2LossDiagProx`, complex `sqL2LossDiagProxC`
     SquaredL2AbsLoss.prox             → `sqL2AbsProx1`, complex `sqL2AbsProxC1`
     SquaredL2SquaredAbsLoss.prox      → `sqL2SqAbsProx1`, complex `sqL2SqAbsProxC1` (cubic root `r` is an input;
@@ -289,6 +290,28 @@ def l1l2ProxC (beta : α) (v : Vec (α × α) n) (lam : α) : Vec (α × α) n :
   let r := l1l2Prox beta (fun i => cabs (v i)) lam
   fun i => cscale (r i) (cphase (v i))
 
+/-! ### generic `Loss` with identity forward operator, and rescaling of losses -/
+
+/-- `Loss.prox` (scico/loss.py, `A` an `Identity`, functional `f` given): `f.prox(v - y, scale*lam) + y`.
+    `fprox` is the prox of the wrapped functional. -/
+def lossTranslateProx (fprox : Vec α n → α → Vec α n) (scale : α) (y v : Vec α n) (lam : α) : Vec α n :=
+  let p := fprox (fun i => v i - y i) (scale * lam)
+  fun i => p i + y i
+
 end Vector
+
+/-- `Loss.__mul__` / `__rmul__` (`scale*c`), `Loss.__truediv__` (`scale/c`), `Loss.set_scale` (`c`) -/
+inductive ScaleOp (α : Type) where
+  | mul (c : α)
+  | div (c : α)
+  | set (c : α)
+
+/-- the `scale` attribute a loss carries after a sequence of rescalings; every prox of a loss reads THIS value
+    (nothing scale-dependent may be cached at construction) -/
+def scaleAfter {α : Type} [Mul α] [Div α] (s0 : α) (ops : List (ScaleOp α)) : α :=
+  ops.foldl (fun s op => match op with
+    | .mul c => s * c
+    | .div c => s / c
+    | .set c => c) s0
 
 end Scico.Prox
